@@ -912,3 +912,37 @@ Definition leak_narrow (v_caller : value) (c : cond) (pol : bool) : value := nar
 (* `case <pattern with sub-patterns> as p`: visit_MatchAs applies the whole pattern's constraint, including the
    constraints of the sub-patterns (which are about elements / attributes), to the subject *)
 Definition as_bound (v : value) (whole sub : cond) : value := narrow v (CAnd whole sub) true.
+
+(* ------------------------------------------------------------------ *)
+(* name_check_visitor.COMPARATOR_TO_OPERATOR: what each of the ten comparison operators computes on ints
+   (codes: 0 == 1 != 2 < 3 <= 4 > 5 >= 6 is 7 is-not 8 in 9 not-in; bs = [b], or the container for in / not in);
+   the negative operator of every entry has to be the complement of the positive one *)
+Definition cmp_sem (code : N) (a : Z) (bs : list Z) : bool :=
+  let b := hd 0%Z bs in
+  match code with
+  | 0%N => Z.eqb a b | 1%N => negb (Z.eqb a b)
+  | 2%N => Z.ltb a b | 3%N => Z.leb a b | 4%N => Z.ltb b a | 5%N => Z.leb b a
+  | 6%N => Z.eqb a b | 7%N => negb (Z.eqb a b)
+  | 8%N => existsb (Z.eqb a) bs
+  | _ => negb (existsb (Z.eqb a) bs)
+  end.
+Definition cmp_row_ok (r : N * Z * list Z * bool * bool) : bool :=
+  match r with (code, a, bs, p, n) => Bool.eqb p (cmp_sem code a bs) && Bool.eqb n (negb p) end.
+
+(* `len(x) in C` / `len(x) not in C` (_constraint_from_predicate_provider with the In / NotIn entries; the
+   transformer leaves the value alone for these operators): a member of known length is kept iff the positive /
+   negative operator says so.  negated_is_complement = false is the rule of the round-5 seed (the negative operator of
+   `in` computes the same as the positive one) *)
+Definition pred_lenin_with (negated_is_complement : bool) (ns : list Z) (sv : sval) (positive : bool) : list sval :=
+  match len_of_value sv with
+  | Some k =>
+      let r := existsb (Z.eqb k) ns in
+      let keep := if positive then r else (if negated_is_complement then negb r else r) in
+      if keep then [sv] else []
+  | None => [sv]
+  end.
+Definition lenin_narrow_with (nic : bool) (v : value) (ns : list Z) (pol : bool) : value :=
+  flat_map (fun sv => pred_lenin_with nic ns sv pol) v.
+Definition lenin_narrow : value -> list Z -> bool -> value := lenin_narrow_with true.
+Definition holds_lenin (ns : list Z) (o : obj) : option bool :=
+  match len_of o with Some k => Some (existsb (Z.eqb (Z.of_nat k)) ns) | None => None end.
